@@ -345,7 +345,7 @@ def drv_bs(c, ctx, col):
     degree = c.pick(ctx["degrees"])
     extrap = c.pick(EXTRAP)
     icpt = c.flag()
-    bmode, max_len = c.pick(ctx["bounds"])  # "default" | ("both", lo, hi) | ("lower", lo) | ("upper", hi)
+    bmode, max_len, *opt = c.pick(ctx["bounds"])  # "default" | ("both", lo, hi) | ("lower", lo) | ("upper", hi)
     symbols = SYM_DEFAULT if bmode == "default" else SYM_OOR
     x = choose_multiset(c, symbols, max_len)
     vals = [v for v in x if v is not None]
@@ -357,6 +357,8 @@ def drv_bs(c, ctx, col):
     if len(set(inr)) < 2:
         raise Skip()
     oor = [v for v in vals if not (lb <= v <= ub)]
+    if opt and len(x) == max_len and not oor:
+        raise Skip()  # "oor" option: vectors of the maximal length are only taken when they contain an out-of-range value
     kwargs = {"degree": degree, "include_intercept": icpt, "extrapolation": extrap}
     if bmode != "default":
         if bmode[0] in ("both", "lower"):
@@ -574,7 +576,7 @@ def drv_cubic(c, ctx, col):
     kind = c.pick(ctx["kinds"])
     cons = c.pick(ctx["constraints"])
     extrap = c.pick(EXTRAP)
-    bmode, max_len = c.pick(ctx["bounds"])
+    bmode, max_len, *opt = c.pick(ctx["bounds"])
     cyclic = kind == "cc"
     symbols = SYM_DEFAULT if bmode == "default" else SYM_OOR
     x = choose_multiset(c, symbols, max_len)
@@ -587,6 +589,8 @@ def drv_cubic(c, ctx, col):
     if len(set(inr)) < 2:
         raise Skip()
     oor = [v for v in vals if not (lb <= v <= ub)]
+    if opt and len(x) == max_len and not oor:
+        raise Skip()  # "oor" option: vectors of the maximal length are only taken when they contain an out-of-range value
     has_null = len(vals) != len(x)
     kwargs = {"extrapolation": extrap}
     if cons is not None:
@@ -837,8 +841,9 @@ def subchecks(tier, seed):
     degs = [0, 1, 2, 3, 4, 5]
     # (bounds mode, maximal length of the training vector) per sub-check
     if quick:
-        bnd = {"bs-knots": [("default", 3), (both, 2)], "bs-df": [("default", 4), (both, 2)],
-               "cubic": [("default", 3), (both, 2)]}
+        # "oor": of the vectors of the maximal length only those with an out-of-range training value (shorter ones: all)
+        bnd = {"bs-knots": [("default", 3), (both, 2)], "bs-df": [("default", 4), (both, 3, "oor")],
+               "cubic": [("default", 3), (both, 3, "oor"), (narrow, 3, "oor")]}
         dfs, fl_len = [3, 4, 5], 2
     else:
         bnd = {"bs-knots": [("default", 4), (both, 3), (narrow, 3), (("lower", 0), 3), (("upper", 4), 3)],
@@ -848,12 +853,13 @@ def subchecks(tier, seed):
 
     def btxt(name):
         out = []
-        for b, n in bnd[name]:
+        for b, n, *opt in bnd[name]:
             if b == "default":
                 out.append("bounds from the data: x = sorted multisets of 2..%d symbols of {0,1/2,1,3/2,2,3,4,null}" % n)
             else:
                 what = "explicit bounds %s..%s" % (b[1], b[2]) if b[0] == "both" else "%s bound only (%s)" % (b[0], b[1])
-                out.append("%s: x = sorted multisets of 2..%d symbols of {-1,0,1/2,1,3/2,2,3,4,5,null}" % (what, n))
+                out.append("%s: x = sorted multisets of 2..%d symbols of {-1,0,1/2,1,3/2,2,3,4,5,null}%s"
+                           % (what, n, " (length %d: only those containing an out-of-range value)" % n if opt else ""))
         return out + [">= 2 distinct in-range values required"]
 
     # Sub-checks are split by the region in which a defect class lives (degree 0; natural / cyclic), so that a flood of
